@@ -483,7 +483,7 @@ fn rt_msg(g: &GMsg) -> V {
 
 fn words3() -> impl Strategy<Value = (String, String, String)> {
     // non-empty service name so the entry does not vanish as an empty segment
-    ("[A-Za-z0-9_.:/-]{1,12}", arb_service_word(), arb_service_word())
+    ("[A-Za-z0-9_.:/ñ語-]{1,12}", arb_service_word(), arb_service_word())
 }
 
 pub fn arb_msg() -> impl Strategy<Value = GMsg> {
@@ -493,7 +493,7 @@ pub fn arb_msg() -> impl Strategy<Value = GMsg> {
             arb_pk(),
             bytes_n(64),
             any::<bool>(),
-            "[a-zA-Z0-9:/._-]{0,40}",
+            "[a-zA-Z0-9:/._üñ日-]{0,40}",
             bytes_n(32),
             proptest::collection::vec(words3(), 0..4),
             (any::<u8>(), any::<u8>(), any::<u16>()),
